@@ -241,3 +241,16 @@ func DecodeInterface(bz []byte, ptr any) bool {
 // transactions). Engine only: natively the real encoders run, so these are never called.
 func EncodeAny(x any) []byte        { panic("verif.EncodeAny: engine only") }
 func DecodeAny(bz []byte, ptr any) bool { panic("verif.DecodeAny: engine only") }
+
+// SplitAmountDenom splits "<digits><denom>" (the rendering of one coin).
+func SplitAmountDenom(s string) (*big.Int, string, bool) {
+	k := 0
+	for k < len(s) && s[k] >= '0' && s[k] <= '9' {
+		k++
+	}
+	if k == 0 || k == len(s) {
+		return new(big.Int), "", false
+	}
+	n, _ := new(big.Int).SetString(s[:k], 10)
+	return n, s[k:], true
+}
